@@ -581,6 +581,17 @@ def _remove_role_summary(ctx, nid):
     return (saw_admitted and saw_not), probs
 
 
+def _has_counters(ctx, tys):
+    """The type is the run's counter record, or a context object of this crate that carries it (`EvictionState { deqs, counters }`)."""
+    if 'EvictionCounters' in tys:
+        return True
+    for an in ctx.prog.adts_in_type(tys):
+        for v_ in ctx.prog.adts[an]['variants']:
+            if any('EvictionCounters' in f_['ty']['s'] for f_ in v_['fields']):
+                return True
+    return False
+
+
 def rule_flow_sync(ctx):
     r = RuleResult('FLOW-counters(sync)', 'maintenance adjusts its run counters on every path: an update applies -old_weight +new_weight as carried '
                    'by the write op; an admission adds 1 and the op\'s new_weight; every entry removed from the map by maintenance or '
@@ -607,7 +618,7 @@ def rule_flow_sync(ctx):
             continue
         takes_entry = any('ValueEntry' in l['ty']['s'] and not l['ty']['s'].startswith('&') for l in b.locals[1:b.argc + 1])
         gives_back = b.locals[0]['ty']['s'] in ('std::option::Option<u32>', 'u32')     # the released weight is returned, the caller books it
-        if takes_entry and (any('EvictionCounters' in l['ty']['s'] for l in b.locals[1:b.argc + 1]) or gives_back):
+        if takes_entry and (any(_has_counters(ctx, l['ty']['s']) for l in b.locals[1:b.argc + 1]) or gives_back):
             from .roles import upsert_role
             ur = upsert_role(ctx)
             if ur and ur['nid'] == nid:
